@@ -527,7 +527,7 @@ def to_world(data, grid, axes):
         scale = spacing * size / 2
     else:
         scale = spacing * (size - 1) / 2
-    return data * scale.reshape((D,) + (1,) * D)
+    return data.double() * scale.double().reshape((D,) + (1,) * D)
 
 
 def value_oracle(op, operands, before, real):
@@ -539,7 +539,7 @@ def value_oracle(op, operands, before, real):
     k = op["op"]
     if k == "copy" and isinstance(real[0], Tensor) and before[0] is not None:
         r = plain(real[0])
-        if r.shape == before[0].shape and not tensors_same(r, before[0]):
+        if r.shape == before[0].shape and r.dtype == before[0].dtype and not tensors_same(r, before[0]):
             n = int((r != before[0]).sum())
             view = "a view with storage offset %d" % operands[0].storage_offset() if operands[0].storage_offset() else "not a view"
             out.append((f"C19:{site}:{name}:data-not-preserved", f"{op['fn']} changed {n} of {r.numel()} values (the copied value is {view})"))
